@@ -36,6 +36,7 @@ def run(chk):
     densfam.replay_schedules(chk, "2inst", nitems=3, ninst=2, depth=3, maxslice=3, stride=30 if quick else 3, ms=[1, 2, 3, 5, 16],
                              seed=chk.seed + 1)
     n = densfam.patterns(chk, [1, 2, 3, 4, 5, 6, 7, 8] if quick else [1, 2, 3, 4, 5, 6, 7, 8, 9, 10, 11, 12])
+    densfam.ties(chk)
     densfam.big(chk, not quick)
     chk.cov["exhaustive"] = True
     chk.cov["explanation"] = "termination and R1/R2 decided for every occupancy pattern of the listed m; histories enumerated to the stated depth; large m sampled"
